@@ -8,7 +8,7 @@ PID = 'C14'
 CHUNK = 1
 CASE_TIMEOUT = 14400     # CPU seconds; one case = the whole reachability search of one model
 TOLERANCE = 'every result after any history equals the result of a fresh object that only did f<-current; compute; that request (1e-12 relative; texts equal); separate processes byte-identical'
-RULE = ('(a) explicit-state reachability on 10 models (one per load kind: none, lumped, RLC, trap, Laplace, skin effect by '
+RULE = ('(a) explicit-state reachability on 13 models (junction end2-end1, end2-end2, end1-end1; one per load kind: none, lumped, RLC, trap, Laplace, skin effect by '
         'conductivity and by resistivity, insulation, both distributed loads on a 2-wire junction, tapered wire over ground, '
         'helix): operations {f<-a, f<-b, f<-c, compute, far field x4, near field x3, report, option list, attach the load to one more pulse, change the source voltage} '
         '(far field 3/4 and near field 3 differ from 1 in exactly one start value), each enabled '
@@ -41,6 +41,10 @@ def model(name):
         A = [0., 0., 0.]
     w1 = mm.Wire(4, *A, *B, 1e-3)
     w2 = mm.Wire(5, *B, *C_, 2e-3)
+    if name == 'rev-e2e2':
+        w2 = mm.Wire(5, *C_, *B, 2e-3)          # junction end 2 - end 2
+    if name == 'rev-e1e1':
+        w1 = mm.Wire(4, *B, *A, 1e-3)           # both legs defined from the junction outwards
     objs = [w1, w2]
     if name == 'taper-ground':
         w2.segtype = 1
@@ -71,7 +75,7 @@ def model(name):
     return m
 
 
-MODELS = ['plain', 'lumped', 'rlc', 'trap', 'laplace', 'skin-cond', 'skin-res', 'insulation', 'both-dist', 'taper-ground', 'helix']
+MODELS = ['plain', 'rev-e2e2', 'rev-e1e1', 'lumped', 'rlc', 'trap', 'laplace', 'skin-cond', 'skin-res', 'insulation', 'both-dist', 'taper-ground', 'helix']
 
 
 def apply(m, op, st):
@@ -287,14 +291,14 @@ def evaluate(c):
                     apply(m, o_, st)
                 if m.f != f:
                     m.f = f
-                apply(m, 'C', st)
+                first = apply(m, 'C', st)
                 if op in ('REP',):
                     # report after the same field requests as recorded in the flags
                     if st_flags[0]:
                         apply(m, st_flags[0], st)
                     if st_flags[1]:
                         apply(m, st_flags[1], st)
-                fresh_cache[key] = apply(m, op, st) if op != 'C' else apply(m, 'C', {})
+                fresh_cache[key] = apply(m, op, st) if op != 'C' else first      # the reference solve is the FIRST one of a new object
             return fresh_cache[key]
         seen = set()
         # breadth-first from the initial state AND from a state in which everything has been computed once
